@@ -248,10 +248,11 @@ fn failed_startup_roll(rep: &mut Report, rng: &mut Rng, _idx: u64) {
             return;
         }
     };
-    let n = 2 + rng.usize_below(20);
+    // (one history per run is longer than any 16-bit counter)
+    let n = if _idx == 0 { 70_000 } else { 2 + rng.usize_below(20) };
     let mut oks = vec![];
     for seq in 0..n as u32 {
-        let a = append_frame(&app, 1, seq, *rng.pick(&[0usize, 5, 100]), true);
+        let a = append_frame(&app, 1, seq, if n > 1000 { 1 } else { *rng.pick(&[0usize, 5, 100]) }, true);
         if let Some(p) = take_panic() {
             rep.violation("C17:panic:append", json!({"min_size": min, "pre_existing_size": pre, "panic": p}));
             return;
@@ -266,7 +267,8 @@ fn failed_startup_roll(rep: &mut Report, rng: &mut Rng, _idx: u64) {
     }
     if c.len() != 1 {
         rep.violation("C17:more-than-one-rotation-requested", json!({"min_size": min, "pre_existing_size": pre, "records": n,
-            "the_first_request_failed": fail_first > 0, "rotation_requests_with_the_file_size_at_the_time": c, "append_results_ok": oks}));
+            "the_first_request_failed": fail_first > 0, "rotation_requests_with_the_file_size_at_the_time": c,
+            "append_results_ok": if oks.len() > 50 { vec![] } else { oks }}));
     }
 }
 
